@@ -228,6 +228,7 @@ Ref World::apply_stmts_decls(const Op& op)
       expect_stmt_defaults(be);
       be.r("type", ABSENT).q("body", { }).q("handlers", { });
       REG(hb, be, true);
+      if (Rec* rc = rec(nref(hi))) { rc->exp.set_r("exception", nref(ex)); rc->exp.set_r("body", nref(hb)); }     // they stay the handler's parts
       // regions: body enclosed by a region binding exactly the exception parameter, itself enclosed by the region enclosing the guarded block
       const ipr::Region& body_region = hb.region();
       const ipr::Region* eh_region = nullptr;
